@@ -62,6 +62,8 @@ def coords(t):
         t = field(t, "inner")
     if t.op == "struct" and set(("x", "y", "z", "t")) <= set(t.args[1]):
         return tuple(field(t, k) for k in ("x", "y", "z", "t"))
+    if t.op == "update_field":
+        return tuple(field(t, k) for k in ("x", "y", "z", "t"))
     return None
 
 
